@@ -34,7 +34,7 @@ struct Stats {
        p_seq_mismatch = 0, p_passed_entry = 0, p_release_unfulfilled = 0, p_release_named = 0, p_moved_mock_call = 0,
        p_seq_destroy_nonempty = 0, p_monitor_ok = 0, p_monitor_unexpected = 0, p_monitor_still_alive = 0,
        p_monitor_seq_violation = 0, p_with_rejects = 0, p_lr_differs = 0, p_trace_records = 0, p_ok_reports = 0,
-       p_rt_inverted = 0, p_multi_monitor = 0, p_assign_watched = 0, p_seq_taken_over = 0, p_watched_mock_death = 0, p_ok_reporter_op = 0, f_unwinding_death = 0, p_call_in_handler = 0, p_call_in_unwinding = 0, p_tracer_op = 0, p_seq_handed_back = 0;
+       p_rt_inverted = 0, p_multi_monitor = 0, p_assign_watched = 0, p_seq_taken_over = 0, p_watched_mock_death = 0, p_ok_reporter_op = 0, f_unwinding_death = 0, p_call_in_handler = 0, p_call_in_unwinding = 0, p_tracer_op = 0, p_seq_handed_back = 0, p_seq_self_assigned = 0;
   long flag_observations = 0;
   void add(const Stats& o);
   std::string to_json() const;
